@@ -13,6 +13,7 @@ CONSTANTS
   Export = FALSE
 INVARIANT LevelsStrictlyDecreasing
 INVARIANT LayerIsGeometricMean
+INVARIANT ArrayInputOrientation
 INVARIANT AltitudeStrictlyIncreasing
 INVARIANT GravityFallsOff
 INVARIANT StepRelation
